@@ -1,4 +1,6 @@
 """C03  Comparison audits test the right null hypothesis (overstatement reduction identity)."""
+import copy
+
 from hypothesis import strategies as st
 
 from strategies import audit as sa
@@ -108,6 +110,20 @@ def evaluate(case, out):
                 if any(cvrs[i].pool and np.isnan(means.get(cvrs[i].tally_pool, 0.0)) for i in pop):
                     out.skip("nan-pool-mean")
                     continue
+                if len(cvrs) % 2 == 1:
+                    # the same assertion scored an earlier export before: same card identifiers, other contents
+                    # (what a card's CVR said then is of no consequence now)
+                    from shangrla.core.Audit import CVR
+                    real = [c for c in cvrs if not c.phantom]
+                    rot = {id(c): real[(k + 1) % len(real)].votes for k, c in enumerate(real)} if real else {}
+                    for i in pop:
+                        c = cvrs[i]
+                        old = CVR(id=c.id, votes=copy.deepcopy(rot.get(id(c), c.votes)), phantom=c.phantom, tally_pool=c.tally_pool, pool=c.pool)
+                        try:
+                            a.overstatement_assorter(mvrs[i], old, use_style=us)
+                        except Exception:  # noqa  (the earlier export may lack the contest on that card)
+                            pass
+                    feats.add("an-earlier-export-with-the-same-ids-was-scored")
                 if len(cvrs) % 3 == 0:
                     # the Contest object's own use_style attribute (True unless the caller sets it) need not agree with the
                     # stratum's: what is passed to overstatement_assorter decides
